@@ -16,14 +16,16 @@ EXTENDS MpqHashTable
 CONSTANTS MCToks
 
 MCNames == {"a", "b", "c", "d"}
-MCHome  == [n \in MCNames \cup {LF, AT} |-> CASE n = "d" -> 1 [] n = LF -> 3 [] n = AT -> 2 [] OTHER -> 0]   \* a b c collide
+\* a b c collide on the LAST slot: their probe chain wraps around the end of the table (a at 3, b at 0, ...);
+\* d's home is the slot the chain wraps into
+MCHome  == [n \in MCNames \cup {LF, AT} |-> CASE n = "d" -> 0 [] n = LF -> 2 [] n = AT -> 1 [] OTHER -> 3]
 \* spelling: "a" is a substring of "b" (e.g. data\\x.bin inside xdata\\x.bin)
 MCSub   == [n \in MCNames |-> IF n = "a" THEN {"b"} ELSE {}]
 MCInit  == <<"a", "b">>                              \* a probe chain exists from the start; 3 of 4 slots live
 MCInitTok == [n \in {"a", "b"} |-> "t0"]
 \* small layout model: two names, more calls, real-ish file size
 LNames == {"a", "b"}
-LHome  == [n \in LNames \cup {LF, AT} |-> 0]
+LHome  == [n \in LNames \cup {LF, AT} |-> 3]      \* everything collides on the last slot: wrapped chains
 LSub   == [n \in LNames |-> IF n = "a" THEN {"b"} ELSE {}]
 LInit  == <<"a">>
 LInitTok == [n \in {"a"} |-> "t0"]
